@@ -32,12 +32,12 @@ class C05(Check):
     BUDGET = {'quick': 30, 'thorough': 240}
     EXHAUSTIVE = {'quick': False, 'thorough': False}
     RULE = ('case = (window w, stride s, stream, parent context). Box: EVERY (w, s, n) with w,s in 1..8 and n in 0..min(4*w*s+3, 80) (quick) / w,s in 1..11, n <= 140 (thorough) at top level '
-            '(wraps the ceil(w/s) slot ring several times); then random w,s <= 12 under group_by with interleaved keys (int / tuple / string keys), nested in roll '
+            '(wraps the ceil(w/s) slot ring several times); then random w,s <= 12 (every 75th case windows of 257-1000 items) under group_by with interleaved keys (int / tuple / string keys), nested in roll '
             '(w != s and w == s variants: key slots are reused by successive outer windows), in split, in time_split, group_by>roll and roll>group_by. '
             'non-trivial = some key lifetime has >= 2 windows; distinct = hash of the case')
     ASSUMPTIONS = ['the order in which ONE source item is delivered to several simultaneously open windows is not constrained (the suite pins slot order, the property does not)']
     ANCHORS = ['rxsci/data/roll.py', 'rxsci/operators/multiplex.py']
-    REQUIRED_TAGS = ['top', 'group', 'roll', 'roll_eq', 'split', 'w<s', 'w=s', 'w>s', 'w%s!=0', 'n=0', 'n<w', 'ring-wrapped']
+    REQUIRED_TAGS = ['top', 'group', 'roll', 'roll_eq', 'split', 'w<s', 'w=s', 'w>s', 'w%s!=0', 'n=0', 'n<w', 'ring-wrapped', 'w>256']
     REQUIRED_OBSERVED = ['child_lifetimes_checked', 'parent_lifetimes_checked', 'partial_windows_flushed']
 
     def generate(self, rng, tier, shard, nshards):
@@ -63,6 +63,15 @@ class C05(Check):
             w, s = rng.randint(1, 12), rng.randint(1, 12)
             if j % 5 == 0:
                 s = w
+            if j % 75 == 37:
+                # windows beyond CPython's small-int cache (257+) and long strides, streams that wrap the slot ring
+                w, s = rng.choice([(300, 100), (257, 256), (400, 399), (1000, 250), (260, 1), (300, 300), (100, 400)])
+                if w // s > 50:
+                    w, s = 260, 65
+                nbig = rng.choice([w + 3, 2 * w + s + 1, 4 * w + 7])
+                name = names[(j // 75) % 2 * 7]          # 'group' or 'top'
+                yield {'w': w, 's': s, 'parent': name, 'parent_node': windows.PARENTS[name](rng), 'items': [rng.randint(0, 40) for _ in range(nbig)]}
+                continue
             n = rng.choice([0, 1, 3, 10, 25, 60, 120])
             items = [rng.randint(0, 40) for _ in range(n)]
             if name == 'time_split':
@@ -78,6 +87,8 @@ class C05(Check):
             out.tags.append('nested')
         if w % s:
             out.tags.append('w%s!=0')
+        if w > 256:
+            out.tags.append('w>256')
         if n == 0:
             out.tags.append('n=0')
         elif n < w:
